@@ -1043,7 +1043,7 @@ def safety_check(pid, mode, tier):
     dis = dis + fb_dis
     # ---- float bounds at the edge of the double range (|b| > 8.9e307: 2*b overflows).  They are part of the parameter grid above
     # (the model clamps like the code and has ±inf as values); this stage stays as an independent check on the real code with real seeds
-    edge = EDGE_FLOAT_BOUNDS
+    edge = EDGE_FLOAT_BOUNDS + [math.inf, -math.inf]  # the infinities too: a float constant like any other (oracle only: not part of the model's grid)
     edge_specs = [(h, b) for h in (("ge", "gt", "le", "lt") if mode == "T" else ("ge", "gt")) for b in edge]
     edge_judged = 0
     for s_ in edge_specs:
